@@ -102,8 +102,38 @@ inline bool solution_touches_itself(const Paths& sol) {
     }
   return false;
 }
+// does the solution touch itself in a point that also carries a HORIZONTAL solution edge (one of the two touching edges is
+// horizontal, or a horizontal edge ends in the contact point)? Contacts of that kind go through the library's horizontal-join
+// logic; contacts between sloping edges only (e.g. two rings meeting in a rounded crossing point) do not.
+inline bool solution_touches_itself_at_horizontal(const Paths& sol) {
+  std::vector<Edge> E = edges_of(sol);
+  auto horizontal = [](const Edge& e) { return e.a.y == e.b.y; };
+  auto on_seg = [](const P& p, const Edge& e) { return orient(e.a, e.b, p) == 0 && std::min(e.a.x, e.b.x) <= p.x && p.x <= std::max(e.a.x, e.b.x) && std::min(e.a.y, e.b.y) <= p.y && p.y <= std::max(e.a.y, e.b.y); };
+  auto horizontal_ends_in = [&](const P& p) { for (auto& e : E) if (horizontal(e) && (e.a == p || e.b == p)) return true; return false; };
+  for (size_t i = 0; i < E.size(); ++i)
+    for (size_t j = i + 1; j < E.size(); ++j) {
+      bool same = E[i].path == E[j].path;
+      size_t n = sol[E[i].path].size();
+      bool adjacent = same && ((size_t)(E[i].idx + 1) % n == (size_t)E[j].idx || (size_t)(E[j].idx + 1) % n == (size_t)E[i].idx);
+      if (adjacent) {
+        const P& a = E[i].a; const P& b = E[i].b; const P& c = E[j].a; const P& d = E[j].b;
+        const P& shared = ((size_t)(E[i].idx + 1) % n == (size_t)E[j].idx) ? b : a;
+        const P& o1 = (shared == b) ? a : b; const P& o2 = (c == shared) ? d : c;
+        if (n > 2 && orient(o1, shared, o2) == 0 && dot128(shared, o1, o2) > 0 && (horizontal(E[i]) || horizontal_ends_in(shared))) return true;
+        continue;
+      }
+      if (!segs_intersect(E[i].a, E[i].b, E[j].a, E[j].b)) continue;
+      if (horizontal(E[i]) || horizontal(E[j])) return true;
+      for (const P* q : {&E[i].a, &E[i].b}) if (on_seg(*q, E[j]) && horizontal_ends_in(*q)) return true;
+      for (const P* q : {&E[j].a, &E[j].b}) if (on_seg(*q, E[i]) && horizontal_ends_in(*q)) return true;
+    }
+  return false;
+}
 // tag for a failed "Union(solution) == solution" clause
-inline std::string union_tag(const Paths& sol) { return solution_touches_itself(sol) ? "union_not_idempotent_touching_solution" : "union_not_idempotent"; }
+inline std::string union_tag(const Paths& sol) {
+  if (!solution_touches_itself(sol)) return "union_not_idempotent";
+  return solution_touches_itself_at_horizontal(sol) ? "union_not_idempotent_touching_solution" : "union_not_idempotent_touching_at_sloping_edges";
+}
 
 inline std::string wellformed_general(const WfInput& in, const Paths& sol, bool pc, bool rs, ld vertex_tol) {
   std::string s = wellformed_structural(in, sol);
